@@ -355,6 +355,23 @@ func runC09(c *Ctx) {
 	// ---- A18 ----------------------------------------------------------------
 	s.contextKindsTogether()
 
+	// ---- A20 ----------------------------------------------------------------
+	c.rule("A20", "a copy of n bytes transfers at most n for every n, negative ones included: safeio.CopyNWithContext copies through io.CopyN with the count given on every path", 1)
+	c.copyNBounded("A20")
+
+	// ---- A19 ----------------------------------------------------------------
+	c.rule("A19", "the kind of the end of a context is read from ctx.Err(), never from context.Cause, anywhere in the module", 0)
+	{
+		var rels []string
+		for _, sp := range c.SSAPkgs {
+			if strings.HasPrefix(sp.Pkg.Path(), modPath) && !strings.Contains(sp.Pkg.Path(), "/mocks") {
+				rels = append(rels, shortPkg(sp.Pkg.Path()))
+			}
+		}
+		sort.Strings(rels)
+		c.noContextCause("A19", rels)
+	}
+
 	// ---- A12 ----------------------------------------------------------------
 	// "fails with the 'cancelled' or 'timeout' kind when its context is already done at the call": no other failure is
 	// reported before the context has been consulted (a closed resource excepted: nothing at all is served then).
